@@ -18,7 +18,8 @@
   Worker pc:  0 idle → 1 nest begun (`wlate` := scope already closed) → 2 opState loaded
               → 3 admitted (CAS ok) → 4 started → 5 leaf completing → 6 receiver completed
               → (fetch_sub) 7 must set the event | 9 released → 8 resuming waiters → 9 ;  10 rejected
-  Joiner pc:  0 idle → 1 begun → (fetch_and) 2 must set the event | 4 → 3 resuming waiters → 4 load
+  Joiner pc:  0 idle → 1 begun → (fetch_and) 2 must set the event (only if this call ended the
+              scope and the count was 0) | 4 → 3 resuming waiters → 4 load
               → 5 push CAS loop → 6 pushed (start returned, waiting) ;  7 completed inline
 -/
 import UnifexModel.Core.Sched
@@ -96,7 +97,7 @@ def stepJ (s : St) (j : Nat) : Option St :=
   match s.jpc j with
   | 0 => some { s with jpc := upd s.jpc j 1 }
   | 1 =>
-    if s.count = 0 then some { s with ended := true, jpc := upd s.jpc j 2 }
+    if s.ended = false ∧ s.count = 0 then some { s with ended := true, jpc := upd s.jpc j 2 }
     else some { s with ended := true, jpc := upd s.jpc j 4 }
   | 2 =>
     if s.sig = true then some { s with jpc := upd s.jpc j 4 }
@@ -546,20 +547,20 @@ theorem invE {N J : Nat} {s : St} (h : Reach (sys N J) s) : InvE N J s :=
   inv_induct (InvE N J) (by refine ⟨?_, ?_, ?_, ?_⟩ <;> simp [init])
     (fun _ _ _ _ hi hlt hs => invE_stepW hi hlt hs) (fun _ _ _ _ hi hlt hs => invE_stepJ hi hlt hs) h
 
-/-- Layer D (a single closer, J = 1): the thread committed to setting the event is unique, so a
-    worker that still has to call `evt_.set()` excludes that the event is already set. -/
+/-- Layer D: the thread committed to setting the event is unique (only the `end_scope` call that
+    actually ends the scope with count 0, or the last completing operation, ever is), so a worker
+    that still has to call `evt_.set()` excludes that the event is already set. -/
 structure InvD (s : St) : Prop where
-  ended_j : s.ended = true → 2 ≤ s.jpc 0
-  claim : ∀ i, s.wpc i = 7 → s.sig = false ∧ s.jpc 0 ≠ 2
+  claim : ∀ i, s.wpc i = 7 → s.sig = false ∧ ∀ j, s.jpc j ≠ 2
   uniq : ∀ i i', s.wpc i = 7 → s.wpc i' = 7 → i = i'
 
 macro "close_D" : tactic =>
-  `(tactic| (refine ⟨?_, ?_, ?_⟩ <;> grind [upd_apply]))
+  `(tactic| (refine ⟨?_, ?_⟩ <;> grind [upd_apply]))
 
 theorem invD_stepW {N : Nat} {s s' : St} {i : Nat} (ha : InvA N s) (h : InvD s)
     (hs : stepW s i = some s') : InvD s' := by
   obtain ⟨-, -, a3, a4, a5, a6, a7, a8, a9⟩ := ha
-  obtain ⟨d1, d2, d3⟩ := h
+  obtain ⟨d2, d3⟩ := h
   unfold stepW at hs
   split at hs
   · injection hs with hs; subst hs; close_D
@@ -575,12 +576,10 @@ theorem invD_stepW {N : Nat} {s s' : St} {i : Nat} (ha : InvA N s) (h : InvD s)
   · split at hs <;> (injection hs with hs; subst hs; close_D)
   · cases hs
 
-theorem invD_stepJ {N : Nat} {s s' : St} {j : Nat} (ha : InvA N s) (h : InvD s) (hj : j < 1)
+theorem invD_stepJ {N : Nat} {s s' : St} {j : Nat} (ha : InvA N s) (h : InvD s)
     (hs : stepJ s j = some s') : InvD s' := by
   obtain ⟨-, -, a3, a4, a5, a6, a7, a8, a9⟩ := ha
-  obtain ⟨d1, d2, d3⟩ := h
-  have hj0 : j = 0 := by omega
-  subst hj0
+  obtain ⟨d2, d3⟩ := h
   unfold stepJ at hs
   split at hs
   · injection hs with hs; subst hs; close_D
@@ -593,10 +592,10 @@ theorem invD_stepJ {N : Nat} {s s' : St} {j : Nat} (ha : InvA N s) (h : InvD s) 
     · split at hs <;> (injection hs with hs; subst hs; close_D)
   · cases hs
 
-theorem invD {N : Nat} {s : St} (h : Reach (sys N 1) s) : InvD s :=
-  inv_induct InvD (by refine ⟨?_, ?_, ?_⟩ <;> simp [init])
+theorem invD {N J : Nat} {s : St} (h : Reach (sys N J) s) : InvD s :=
+  inv_induct InvD (by refine ⟨?_, ?_⟩ <;> simp [init])
     (fun _ _ _ hr hi _ hs => invD_stepW (invA hr) hi hs)
-    (fun _ _ _ hr hi hlt hs => invD_stepJ (invA hr) hi hlt hs) h
+    (fun _ _ _ hr hi _ hs => invD_stepJ (invA hr) hi hs) h
 
 /-! ### no step is ever blocked: a state without successor is terminal -/
 
